@@ -17,7 +17,7 @@ ASSUMPTIONS = [
     'exact real arithmetic ("bit for bit" in IEEE arithmetic is only checked on replayed counterexamples)',
     'market: Open/Close of every bar symbolic in (1,1000); calendar, weights, buffer/leverage, fee rates and initial cash concrete per configuration',
     'data source built from asset_bar_frames onward (CSV text parsing outside); Adj Close adjustment off',
-    'truncated-frame comparison for the cut days listed per configuration (quick: the middle day; thorough: every day)',
+    'truncated-frame comparison for the cut days listed per configuration (the middle day; thorough: days 1, 3, 5 for the two basic one-asset configurations); the two-market obligation covers every cut day',
 ]
 DEADLINE = {'quick': 1500, 'thorough': 3400}
 
@@ -26,8 +26,8 @@ def configs(tier):
     out = session.configs_for('C07', tier)
     if tier == 'thorough':
         for c in out:
-            if len(c['assets']) == 1:
-                c['cuts'] = list(range(c['nd'] - 1))
+            if c['name'] in ('s1_weekly', 's1_weekly_holiday'):
+                c['cuts'] = [1, 3, 5]         # three truncation days (every further one multiplies the path tree)
     return out
 
 
